@@ -12,6 +12,7 @@ import (
 	"pgregory.net/rapid"
 
 	"verif/lib/ev"
+	"verif/lib/sched"
 	"verif/lib/walk"
 )
 
@@ -65,6 +66,7 @@ func eqInts(a, b []int) bool {
 func TestC18Builder(t *testing.T) {
 	st := ev.Get("C18", "TestC18Builder")
 	rapid.Check(t, func(t *rapid.T) {
+		sched.SeedRand(t)
 		f := &failer{t: t, st: st}
 		nseg := rapid.IntRange(0, 8).Draw(t, "nseg")
 		sizes := make([]int, nseg)
@@ -191,6 +193,7 @@ func TestC18Builder(t *testing.T) {
 func TestC18Merger(t *testing.T) {
 	st := ev.Get("C18", "TestC18Merger")
 	rapid.Check(t, func(t *rapid.T) {
+		sched.SeedRand(t)
 		f := &failer{t: t, st: st}
 		nl := rapid.IntRange(0, 5).Draw(t, "nlists")
 		var all []int
